@@ -271,6 +271,11 @@ class SymSession(_Base):
     def allow_realize(self, flag=True):
         self.ctx.allow_realize = flag
 
+    def constants_as_doubles(self, flag=True):
+        """log / exp of *concrete* numbers inside the code are computed by NumPy (doubles) instead of being kept
+        as exact terms: for harnesses that only ask whether a run crashes, on data that are concrete."""
+        self.ctx.exact_constant_functions = not flag
+
     def messages_may_format_numbers(self, flag=True):
         """The code under test formats numbers into warning texts; those
         strings are not observed (see SymFloat.__float__)."""
@@ -391,6 +396,9 @@ class ConcSession(_Base):
         self.observations.append((label, value))
 
     def allow_realize(self, flag=True):
+        pass
+
+    def constants_as_doubles(self, flag=True):
         pass
 
     def messages_may_format_numbers(self, flag=True):
